@@ -198,6 +198,19 @@ func run(c *core.Case, st *core.CaseStats, seed int64) {
 				rep("PKCS7UnPadding", "value", in, "error (not a correctly padded multiple of the block size)", len(back))
 			}
 		}
+	case "oddunpad":
+		b, n, q := argI(c, 0), argI(c, 1), argI(c, 2)
+		data := rb(n)
+		for i := 0; i < q && i < n; i++ {
+			data[n-1-i] = byte(q)
+		}
+		in := map[string]interface{}{"block": b, "len": n, "tail": q, "data": data}
+		st.Nontrivial++
+		var back []byte
+		var err error
+		if guard("PKCS7UnPadding", in, func() { back, err = cryptz.PKCS7UnPadding(append([]byte{}, data...), b) }) && err == nil {
+			rep("PKCS7UnPadding", "value", in, "error (length is not a multiple of the block size)", len(back))
+		}
 	case "paderr":
 		b := argI(c, 1)
 		in := map[string]interface{}{"block": b}
